@@ -11,6 +11,8 @@ UNITS[name] = dict(module=..., rlimit=..., timeout=...)
 
 UNITS = {
     'codec_mut': dict(module='units.codec_mut', rlimit=150, timeout=300),
+    'codec_imm': dict(module='units.codec_imm', rlimit=150, timeout=300),
+    'ser': dict(module='units.ser', rlimit=150, timeout=600),
     'hash': dict(module='units.hash', rlimit=50, timeout=300),
     'rollback': dict(module='units.rollback', rlimit=50, timeout=300),
 }
@@ -20,8 +22,18 @@ PROPS = {
         units=[('codec_mut', r'(with_capacity|read_push|Version\.|impl Version)')],
         kani=[],
     ),
+    'C01': dict(
+        units=[('ser', r'(write|payload_sizes|gecko_codes|game_start|game_end|PayloadSizes|frame_counts|C01|Frame::len)'),
+               ('codec_imm', r'(write|size|from|emit|encode_decode|lemma_)'),
+               ('codec_mut', r'(read_push|with_capacity|push_null)')],
+        kani=[],
+    ),
+    'C17': dict(
+        units=[('ser', r'(raw_size|frame_counts|gecko_codes_size|payload_sizes|PayloadSizes|lemma_|C17|Frame::write|::write$|Frame::len)')],
+        kani=[],
+    ),
     'C09': dict(
-        units=[],
+        units=[('ser', r'(C09|write__c09)')],
         kani=['c09_assert_max_version'],
     ),
     'C20': dict(
@@ -37,7 +49,7 @@ PROPS = {
         kani=[],
     ),
     'C13': dict(
-        units=[('codec_mut', r'(transpose_one)')],
+        units=[('codec_mut', r'(transpose_one)'), ('codec_imm', r'(transpose_one)')],
         kani=[],
     ),
 }
